@@ -128,6 +128,8 @@ def _run_case(ctx, case) -> F.Outcome:
     from zorg.service.swog._saved_queries import expand_saved_queries
 
     kind = case[0]
+    if kind == "nested-edit":
+        return _run_nested_edit(ctx, case)
     ix = _index().private_copy()
     H.freeze(DAY)
     out = F.Outcome()
@@ -201,6 +203,49 @@ def _run_case(ctx, case) -> F.Outcome:
     return out
 
 
+def _run_nested_edit(ctx, case) -> F.Outcome:
+    """Same process: expand {outer} (outer -> {inner}), then rewrite or delete ONLY the
+    inner page, expand {outer} again.  Every expansion must reflect the pages as they are."""
+    from zorg.service.swog._saved_queries import expand_saved_queries
+
+    _, i1, i2, delete = case
+    ix = _index().private_copy()
+    H.freeze(DAY)
+    out = F.Outcome()
+    zoq = ix.zdir / "zoq"
+    zoq.mkdir(exist_ok=True)
+    for p in zoq.glob("*.zoq"):
+        p.unlink()
+    U = ix.universe
+    outer = [[["ref", "inner"], ["tag", "+", "j1", False]]]
+    (zoq / "outer.zoq").write_text(wrap(render_with_refs(outer), 1) + "\n")
+    problems = []
+    steps = [PLAIN[i1], PLAIN[i2]]
+    for k, clause in enumerate(steps):
+        (zoq / "inner.zoq").write_text(wrap(render_with_refs(clause), k % 3) + "\n")
+        env = {"outer": outer, "inner": clause}
+        where = [[["ref", "outer"]]]
+        want = sorted(n["zid"] for n in U.notes if Q.holds_or(substitute(where, env), n, U, DAY))
+        exp = expand_saved_queries(ix.zdir, "W {outer}")
+        got, err = (None, "expansion failed") if exp is None else ix.where_zids(exp)
+        if err is not None or sorted(got) != want:
+            problems.append((f"selected-notes-differ-after-nested-page-was-rewritten:step{k}",
+                             {"inner": wrap(render_with_refs(clause), 0), "expanded": exp, "expected": want,
+                              "observed": got, "error": err}))
+    if delete:
+        (zoq / "inner.zoq").unlink()
+        exp = expand_saved_queries(ix.zdir, "W {outer}")
+        if exp is not None:
+            problems.append(("missing-nested-saved-query-not-reported-after-deletion", {"expanded": exp}))
+    out.obs = H.digest([p[0] for p in problems])
+    out.nontrivial = H.digest(case)
+    if problems:
+        out.ok = False
+        out.sig = problems[0][0].split(":")[0]
+        out.detail = {"case": case, "problem": problems[0][1], "all": [p[0] for p in problems]}
+    return out
+
+
 def _has_top_or(clause) -> bool:
     return len(clause) > 1
 
@@ -238,6 +283,10 @@ def _cases(ctx):
         for style in styles:
             for qi in range(nq):
                 cases.append(["ref", ia, ib, ic, style, qi])
+    for i1 in range(len(PLAIN)):
+        for i2 in range(len(PLAIN)):
+            if i1 != i2:
+                cases.append(["nested-edit", i1, i2, (i1 + i2) % 2 == 0])
     for qtext in ("W {nosuch}", "W o {nosuch}", "S count(note) W {nosuch} #t1", "W {qb} {nosuch}",
                   "W #t1 | {nosuch}", "W {qb.v3}", "W {qb.}", "W {outer}", "W #t1 {outer2}", "W {qb} | {outer}"):
         cases.append(["missing", qtext])
@@ -245,6 +294,9 @@ def _cases(ctx):
 
 
 def _sample(ctx, case):
+    if case[0] == "nested-edit":
+        return {"outer": "# S note W {inner} +j1 O priority G file", "inner_first": render_with_refs(PLAIN[case[1]]),
+                "inner_then": render_with_refs(PLAIN[case[2]]), "then_deleted": case[3]}
     if case[0] == "missing":
         return {"query": case[1], "saved": {"qb": "# W #t1"}}
     _, ia, ib, ic, style, qi = case
